@@ -465,7 +465,7 @@ func (m *Model) Step(u *ops.Universe, op ops.Op, out ops.Out) string {
 
 	case "pushManifest":
 		data := u.ManBytes(op.M)
-		mt := u.ManMediaType(op.M)
+		mt := u.PushMediaType(op)
 		tag := tagName(op.T)
 		d := descOf(data, mt)
 		if !validName {
@@ -535,8 +535,10 @@ func (m *Model) Step(u *ops.Universe, op ops.Op, out ops.Out) string {
 		if len(refs) > 0 {
 			m.ev("manifest-with-refs")
 		}
-		if _, had := r.Mans[d.Digest]; !had && m.Events["deleted:"+name+d.Digest] > 0 {
+		if old, had := r.Mans[d.Digest]; !had && m.Events["deleted:"+name+d.Digest] > 0 {
 			m.ev("repush-after-delete")
+		} else if had && old.MT != mt {
+			m.ev("manifest-retyped")
 		}
 		r.Mans[d.Digest] = Man{data, mt, subject}
 		if tag != "" {
